@@ -32,7 +32,7 @@ contract(
         # the returned start is the candidate start that attains the maximum (first such)
         "opt_start": "exists(range(r), lambda a: result[1] == starts[a] and result[2][a] == result[0] and forall(range(0, a), lambda k: result[2][k] < result[0]))",
     },
-    call_ghosts={"penalised_saving = penalise_savings(next_savings, alpha, betas)": {"penalise_savings": {"tok": "tok", "cs": "cs", "ce": "ce"}}},
+    call_ghosts={"penalised_saving = penalise_savings(*": {"penalise_savings": {"tok": "tok", "cs": "cs", "ce": "ce"}}},
     props=["C03"],
 )
 
@@ -104,5 +104,110 @@ contract(
     }},
     loop_vars={"loop#1": {"collective_anomalies": "list[(int,int)]", "point_anomalies": "list[(int,int)]"}},
     decreases={"loop#1": "i + 1"},
+    props=["C03", "C04"],
+)
+
+# ------------------------------------------------------------------------------------------------ run_base_capa
+def _sav(pre):
+    return {pre: "obj:~BaseSaving", f"{pre}._is_fitted": "bool=True", f"{pre}.min_size": "int", f"{pre}._X": "real[n,p]",
+            f"{pre}.ghost_tok": "int", f"{pre}.ghost_n": "int", f"{pre}.ghost_q": "int"}
+
+
+TC, TP = "collective_saving.ghost_tok", "point_saving.ghost_tok"
+PSc = lambda s, e: f"PSC({TC}, {s}, {e}, collective_alpha, arrid(collective_betas))"
+PSp = lambda t: f"PSC({TP}, {t}, {t} + 1, point_alpha, arrid(point_betas))"
+MM, MX = "min_segment_length", "max_segment_length"
+PEN = "(collective_alpha + vsum(collective_betas))"
+def BP(v):
+    """back-pointer fact for 0-based position v (prefix length v+1): nan and CG unchanged, or a point anomaly at v, or a collective
+    anomaly [start, v+1) of admissible length realising CG(v+1)."""
+    a = f"optval(opt_anomaly_starts[{v}])"
+    return (f"((isnan_(opt_anomaly_starts[{v}]) and CG({v} + 1) == CG({v})) or "
+            f"(not isnan_(opt_anomaly_starts[{v}]) and "
+            f"(({a} == {v} and CG({v} + 1) == CG({v}) + {PSp(v)}) or "
+            f"(0 <= {a} and {MM} <= {v} + 1 - {a} and {v} + 1 - {a} <= {MX} and "
+            f"CG({v} + 1) == CG({a}) + PSC({TC}, {a}, {v} + 1, collective_alpha, arrid(collective_betas))))))")
+
+
+COMMON = ("len(opt_savings) == n + 1 and len(opt_anomaly_starts) == n and never_pruned == n + min_segment_length + 1 and "
+          "collective_saving._is_fitted == True and point_saving._is_fitted == True")
+T2 = "(t + 1)"          # prefix length handled in the current iteration of the main loop
+TD2 = f"({MM} - 1 + _k)"  # prefixes of length <= TD2 are done at the head of the main loop
+
+contract(
+    target=f"{MV}::run_base_capa",
+    params={**_sav("collective_saving"), **_sav("point_saving"), "collective_alpha": "real", "collective_betas": "real[qc]",
+            "point_alpha": "real", "point_betas": "real[qp]", "min_segment_length": "int", "max_segment_length": "int"},
+    requires=[f"{MM} >= 2", f"{MX} >= {MM}", f"n >= {MM}", "collective_saving.ghost_n == n", "point_saving.ghost_n == n",
+              "collective_saving.min_size >= 1", f"collective_saving.min_size <= {MM}", "point_saving.min_size == 1",
+              "collective_saving.ghost_q >= 1", "point_saving.ghost_q >= 1",
+              f"CAPA_THEORY({TC}, collective_alpha, arrid(collective_betas), {TP}, point_alpha, arrid(point_betas), {MM}, {MX}, n)",
+              f"CAPA_SUBADD({TC}, collective_alpha, arrid(collective_betas), {PEN}, {MM}, {MX}, n)"],
+    returns="(real[n],list[(int,int)],list[(int,int)])",
+    ensures={
+        # C03: the cumulative score at each time is the optimum for the prefix ending there
+        "scores_are_optimal": "forall(range(1, n + 1), lambda T: result[0][T - 1] == CG(T))",
+        # C04: collective anomalies within [m, M], point anomalies of length 1, pairwise disjoint
+        "collective_lengths": f"forall(range(len(result[1])), lambda q: 0 <= result[1][q][0] and result[1][q][1] <= n and "
+                              f"{MM} <= result[1][q][1] - result[1][q][0] and result[1][q][1] - result[1][q][0] <= {MX})",
+        "point_lengths": "forall(range(len(result[2])), lambda q: 0 <= result[2][q][0] and result[2][q][1] == result[2][q][0] + 1 and result[2][q][1] <= n)",
+        "disjoint": "forall(range(len(result[1])), range(len(result[2])), lambda q, r: result[1][q][1] <= result[2][r][0] or result[2][r][1] <= result[1][q][0]) and "
+                    "forall(range(len(result[1])), range(len(result[1])), lambda q, r: implies(q < r, result[1][r][1] <= result[1][q][0]))",
+    },
+    invariants={
+        "loop#1": {
+            "common": COMMON + " and len(starts) == 0 and len(start_prune_times) == 0",
+            "G": "forall(range(0, t + 1), lambda u: opt_savings[u] == CG(u)) and forall(range(t + 1, n + 1), lambda u: opt_savings[u] == 0)",
+            "BP": f"forall(range(0, t), lambda v: {BP('v')}) and forall(range(t, n), lambda v: isnan_(opt_anomaly_starts[v]))",
+        },
+        "loop#2": {
+            "common": COMMON + f" and len(starts) == len(start_prune_times) and len(ts) == n - {MM} + 1",
+            "G": f"forall(range(0, {TD2} + 1), lambda u: opt_savings[u] == CG(u)) and forall(range({TD2} + 1, n + 1), lambda u: opt_savings[u] == 0)",
+            "BP": f"forall(range(0, {TD2}), lambda v: {BP('v')}) and forall(range({TD2}, n), lambda v: isnan_(opt_anomaly_starts[v]))",
+            "J1": f"forall(range(len(starts)), lambda k: 0 <= starts[k] and starts[k] <= {TD2} - {MM} and {TD2} + 1 - starts[k] <= {MX} and "
+                  "g_in[starts[k]] and g_pos[starts[k]] == k)",
+            "J2": "forall(range(n + 1), lambda s: implies(g_in[s], 0 <= g_pos[s] and g_pos[s] < len(starts) and starts[g_pos[s]] == s))",
+            "J3": f"forall(range(len(starts)), lambda k: start_prune_times[k] + {MM} > {TD2} + 1 and (start_prune_times[k] == never_pruned or "
+                  f"(starts[k] + {MM} <= start_prune_times[k] and start_prune_times[k] <= {TD2} and "
+                  f"CG(starts[k]) + {PSc('starts[k]', 'start_prune_times[k]')} + {PEN} < CG(start_prune_times[k]))))",
+            "J4": f"forall(range(n + 1), lambda s: implies(0 <= s and s <= {TD2} - {MM} and not g_in[s], {TD2} + 1 - s > {MX} or "
+                  f"(s + {MM} <= g_W[s] and g_W[s] + {MM} <= {TD2} + 1 and CG(s) + {PSc('s', 'g_W[s]')} + {PEN} < CG(g_W[s]))))",
+        },
+    },
+    loop_vars={"loop#2": {"g_in": "bool[n+1]", "g_pos": "int[n+1]", "g_W": "int[n+1]"}},
+    ghost=[
+        ("after:opt_point_saving, _, _ = optimise_savings(*",
+         f"assert CA(t + 1) >= 0 or CA(t + 1) < 0\nassert opt_point_saving == CG(t) + {PSp('t')}"),
+        ("after:opt_savings[t + 1] = savings[argmax]", "assert opt_savings[t + 1] == CG(t + 1)"),
+        ("after:opt_anomaly_starts[t] = opt_start", f"assert {BP('t')}"),
+        ("after:opt_anomaly_starts[t] = t", f"assert {BP('t')}"),
+        ("before:for t in ts:", "g_in = lam('bool', n + 1, lambda s: False)\ng_pos = lam('int', n + 1, lambda s: 0)\ng_W = lam('int', n + 1, lambda s: 0)"),
+        ("after:starts = np.concatenate(*",
+         "g_in = lam('bool', n + 1, lambda s: s == t - min_segment_length + 1 or g_in[s])\n"
+         "g_pos = lam('int', n + 1, lambda s: ite(s == t - min_segment_length + 1, len(starts) - 1, g_pos[s]))"),
+        ("after:opt_collective_saving, opt_start, candidate_savings = *",
+         f"g_star = CA({T2})\n"
+         f"assert implies(0 <= g_star and {MM} <= {T2} - g_star and {T2} - g_star <= {MX} and not g_in[g_star] and not ({T2} - g_star > {MX}), "
+         f"CG({T2}) >= CG(g_W[g_star]) + {PSc('g_W[g_star]', T2)})\n"
+         f"assert implies(0 <= g_star and {MM} <= {T2} - g_star and {T2} - g_star <= {MX} and CG({T2}) == CG(g_star) + {PSc('g_star', T2)}, g_in[g_star])\n"
+         f"assert forall(range(len(starts)), lambda k: candidate_savings[k] <= CG({T2}))\n"
+         f"assert implies(0 <= g_star and {MM} <= {T2} - g_star and {T2} - g_star <= {MX} and CG({T2}) == CG(g_star) + {PSc('g_star', T2)}, "
+         f"candidate_savings[g_pos[g_star]] == CG({T2}))\n"
+         f"assert opt_collective_saving <= CG({T2}) and 0 <= opt_start and {MM} <= {T2} - opt_start and {T2} - opt_start <= {MX} and "
+         f"opt_collective_saving == CG(opt_start) + {PSc('opt_start', T2)}\n"
+         f"assert implies(0 <= g_star and {MM} <= {T2} - g_star and {T2} - g_star <= {MX} and CG({T2}) == CG(g_star) + {PSc('g_star', T2)}, "
+         f"opt_collective_saving == CG({T2}))"),
+        ("before:penalty_sum = *", f"assert forall(range(0, t + 1), lambda v: {BP('v')})"),
+        ("before:starts = starts[keep]", "g_spt0 = start_prune_times\ng_in0 = g_in\ng_pos0 = g_pos\ng_W0 = g_W"),
+        ("after:start_prune_times = start_prune_times[keep]",
+         "g_W = lam('int', n + 1, lambda s: ite(g_in0[s] and not keep[g_pos0[s]], g_spt0[g_pos0[s]], g_W0[s]))\n"
+         "g_in = lam('bool', n + 1, lambda s: g_in0[s] and keep[g_pos0[s]])\n"
+         "g_pos = lam('int', n + 1, lambda s: gather_pos(starts, g_pos0[s]))"),
+    ],
+    call_ghosts={
+        "opt_point_saving, _, _ = optimise_savings(*": {"optimise_savings": {"tok": TP, "cs": "t_array", "ce": "t_array + 1"}},
+        "opt_collective_saving, opt_start, candidate_savings = optimise_savings(*": {"optimise_savings": {"tok": TC, "cs": "starts", "ce": "ends"}},
+        "collective_anomalies, point_anomalies = get_anomalies(*": {"get_anomalies": {"m": MM, "M": MX}},
+    },
     props=["C03", "C04"],
 )
